@@ -13,8 +13,8 @@ RULE = ("stream system judged by `kmodel sysobjects C03`: seeded histories (obje
 DUE = ["before_next=30", "next_hours=24"]
 QUICK = [("default", 10, 16, []), ("maint", 6, 16, ["profile=maint"]), ("roll", 8, 20, ["profile=roll"]),
          ("rollmaint", 4, 20, ["profile=roll,maint"]), ("due", 4, 14, DUE + ["profile=maint"])]
-THOROUGH = [("default", 240, 36, []), ("maint", 160, 36, ["profile=maint"]), ("roll", 240, 40, ["profile=roll"]),
-            ("rollmaint", 120, 40, ["profile=roll,maint"]), ("due", 120, 30, DUE + ["profile=maint"])]
+THOROUGH = [("default", 180, 36, []), ("maint", 120, 36, ["profile=maint"]), ("roll", 180, 40, ["profile=roll"]),
+            ("rollmaint", 90, 40, ["profile=roll,maint"]), ("due", 70, 30, DUE + ["profile=maint"])]
 
 ASSUME = [
     "expiry-based removal from the CRL (remove_expired) is modelled with an explicit clock; no object expires during a run",
